@@ -68,6 +68,8 @@ type History struct {
 	// TimeTable: if set, MsgSpec.T is an index into this table of absolute unix-microsecond values
 	// (times over the whole int64 range; the trace carries the index: an injective renaming)
 	TimeTable []int64 `json:"timetable,omitempty"`
+	// Epoch0: times are relative to the Unix epoch itself (absolute microsecond values as small as offsets)
+	Epoch0 bool `json:"epoch0,omitempty"`
 }
 
 // Observation profile: which sweeps the executor records after every step.
@@ -184,8 +186,12 @@ type Exec struct {
 }
 
 func NewExec(h *History, dir string, out *TraceWriter, obs Obs) *Exec {
-	return &Exec{h: h, dir: dir, out: out, obs: obs, vals: map[string]int{}, stateSigs: map[string]struct{}{},
+	x := &Exec{h: h, dir: dir, out: out, obs: obs, vals: map[string]int{}, stateSigs: map[string]struct{}{},
 		t0: time.Now().UnixMicro()}
+	if h.Epoch0 {
+		x.t0 = 0
+	}
+	return x
 }
 
 func (x *Exec) emit(ev string, m map[string]any) {
